@@ -1261,7 +1261,9 @@ mod handle_cache_helpers {
             )
             .await;
 
-        let extension = match Path::new(request.uri().path())
+        // the extension of the URI which selected the handler: the response of an internal
+        // route (cached under the internal URI) doesn't depend on the page it was served for
+        let extension = match Path::new(overide_uri.unwrap_or_else(|| request.uri()).path())
             .extension()
             .and_then(std::ffi::OsStr::to_str)
         {
@@ -1427,7 +1429,9 @@ mod handle_cache_helpers {
                 }
             }
             (_, None) => {
-                let vary_rules = host.vary.rules_from_request(request);
+                let vary_rules = host
+                    .vary
+                    .rules_from_path(overide_uri.unwrap_or_else(|| request.uri()).path());
 
                 // SAFETY: The requirements are met; the cache we're storing this is is part of the
                 // `host`; the `host` will outlive this struct.
@@ -1604,7 +1608,10 @@ pub async fn handle_cache(
                 )
                 .await;
 
-            let vary_rules = host.vary.rules_from_request(request);
+            // The rules of the URI the response is cached under (see `get_response`).
+            let vary_rules = host
+                .vary
+                .rules_from_path(overide_uri.unwrap_or_else(|| request.uri()).path());
 
             // SAFETY: The requirements are met; the cache we're storing this is is part of the
             // `host`; the `host` will outlive this struct.
